@@ -71,6 +71,9 @@ def audits(node, key, value=None, default=None, delete=False):
     Set, update, or delete an :obj:`ast` node's static analysis attribute.
     """
     # pylint: disable=protected-access
+    if node is None:
+        return default
+
     if not hasattr(node, "_audits"):
         setattr(node, "_audits", {})
 
